@@ -17,8 +17,24 @@
 (*                                     compared unequal: MAY BE EQUAL TEXT *)
 (*   bineq    BinaryEqualFailure       byte blocks of one length, differ   *)
 (* A NULL operand: no position is printed.                                 *)
+(*                                                                         *)
+(* "Shows both operands": every message delimits each operand it prints;   *)
+(* the delimited pieces of the message are its fields.  ShowsBoth says     *)
+(* that each (non-NULL) operand is the content of a field of its own, in   *)
+(* its shown form: escaped (PrintedR) for the kinds that print C strings,  *)
+(* as it is for the kinds whose operands are texts the caller rendered:    *)
+(*   equals      EqualsFailure             two rendered texts (may coincide)*)
+(*   contains    ContainsFailure           needle e, haystack a             *)
+(*   exception   UnexpectedExceptionFailure one operand: the what() text    *)
+(*   unsupported FeatureUnsupportedFailure  one operand: the feature name   *)
+(* for every operand LENGTH: long operands are run-length encoded          *)
+(* (<<symbol, count>> runs), so that lengths of hundreds or thousands of   *)
+(* characters cost nothing to state; Expand / PrintedR work on runs.       *)
+(* Characters of a message that are not in the operand alphabet have the   *)
+(* code 100 + byte ('0' = 148, '1' = 149, blank = 132).                    *)
 (***************************************************************************)
 EXTENDS Integers, Sequences, FiniteSets, TLC
+LOCAL INSTANCE SequencesExt       \* FoldLeft (evaluated iteratively by TLC: long operands do not nest evaluations)
 
 CONSTANTS Syms, MaxLen,
           Widths,        \* operand widths in bytes of the bits-equal kind (subset of 1..8)
@@ -27,14 +43,14 @@ CONSTANTS Syms, MaxLen,
           MV             \* lattice of masks: all bytes 255 except one taken from MV, or all bytes 0 except one 255
 
 Strs == UNION { [1..k -> Syms] : k \in 0..MaxLen }
-Min(a, b) == IF a < b THEN a ELSE b
+MinOf(a, b) == IF a < b THEN a ELSE b
 At(s, i) == IF i < Len(s) THEN s[i + 1] ELSE 0
 Lower(c) == IF c = 2 THEN 1 ELSE c
 LowerAll(s) == [i \in 1..Len(s) |-> Lower(s[i])]
-Printable(c) == c \in {1, 2, 3, 4, 5}
+Printable(c) == c \in {1, 2, 3, 4, 5, 8, 9}
 AllPrintable(s) == \A i \in 1..Len(s) : Printable(s[i])
 
-DiffSet(a, b) == { i \in 0..Min(Len(a), Len(b)) : At(a, i) # At(b, i) }
+DiffSet(a, b) == { i \in 0..MinOf(Len(a), Len(b)) : At(a, i) # At(b, i) }
 HasDiff(a, b) == DiffSet(a, b) # {}
 FirstDiff(a, b) == CHOOSE i \in DiffSet(a, b) : \A j \in DiffSet(a, b) : i <= j
 FirstDiffNC(a, b) == FirstDiff(LowerAll(a), LowerAll(b))
@@ -47,6 +63,32 @@ Verdict(kind, e, a, enull, anull) ==
     IF enull \/ anull THEN [haspos |-> FALSE, pos |-> 0, free |-> FALSE]
     ELSE IF kind = "nocase" THEN [haspos |-> TRUE, pos |-> FirstDiffNC(e, a), free |-> ~HasDiff(LowerAll(e), LowerAll(a))]
     ELSE [haspos |-> TRUE, pos |-> IF HasDiff(e, a) THEN FirstDiff(e, a) ELSE 0, free |-> ~HasDiff(e, a)]
+
+-----------------------------------------------------------------------------
+\* operands of any length as runs, and how an operand is shown
+Rep(c, n) == [i \in 1..n |-> c]
+RepSeq(q, n) == [i \in 1..(n * Len(q)) |-> q[((i - 1) % Len(q)) + 1]]
+Expand(r) == FoldLeft(LAMBDA acc, run : acc \o Rep(run[1], run[2]), <<>>, r)
+Runs(s) == [i \in 1..Len(s) |-> <<s[i], 1>>]
+\* the escape of a symbol that is not printable: C notation (line feed -> backslash n, byte 0x01 -> backslash x 0 1); a backslash stays
+Esc(c) == IF c = 6 THEN <<4, 5>> ELSE IF c = 7 THEN <<4, 8, 148, 149>> ELSE <<c>>
+PrintedR(r) == FoldLeft(LAMBDA acc, run : acc \o RepSeq(Esc(run[1]), run[2]), <<>>, r)
+Printed(s) == PrintedR(Runs(s))
+Count(s, c) == Cardinality({ i \in 1..Len(s) : s[i] = c })
+HasSub(s, t) == \E i \in 0..(Len(s) - Len(t)) : SubSeq(s, i + 1, i + Len(t)) = t        \* t occurs in s
+
+Rendered == {"equals", "contains", "exception", "unsupported"}      \* operands are texts the caller rendered: shown as they are
+OneOperand == {"exception", "unsupported"}
+\* bineq: a field of a hex dump is compared as the bytes it denotes (the harness decodes "61 0A" into symbols)
+ShownForm(kind, r) == IF kind \in Rendered \cup {"bineq"} THEN Expand(r) ELSE PrintedR(r)
+\* F = the fields of the message (sequences of symbols); er, ar = the operands as runs
+ShowsBoth(kind, er, ar, enull, anull, F) ==
+    LET Ie == { i \in 1..Len(F) : F[i] = ShownForm(kind, er) }
+        Ia == { i \in 1..Len(F) : F[i] = ShownForm(kind, ar) }
+    IN IF kind \in OneOperand THEN Ie # {}
+       ELSE /\ enull \/ Ie # {}
+            /\ anull \/ Ia # {}
+            /\ (~enull /\ ~anull) => \E i \in Ie, j \in Ia : i # j           \* each operand in a field of its own
 
 -----------------------------------------------------------------------------
 \* bits-equal kind.  A value: [1..8 -> 0..255], index 1 = most significant byte.  Symbols: 0, 1, X (don't care).
@@ -88,11 +130,23 @@ BitLemmas ==
           \* operands that differ in a compared bit are never printed alike
           /\ (Shown(v1, m, w) = Shown(v2, m, w)) <=> (Low(And8(v1, m), w) = Low(And8(v2, m), w))
           /\ (Low(And8(v1, m), w) # Low(And8(v2, m), w)) => ~ShowsOK(Shown(v1, m, w), v2, m, w)
-Lemmas == BitLemmas /\ \A a \in Strs, b \in Strs :
+ShownLemmas ==
+    \A s \in Strs :
+        /\ Expand(Runs(s)) = s
+        /\ Len(Printed(s)) = Len(s) + Count(s, 6) + 3 * Count(s, 7)
+        /\ (Printed(s) = s) <=> AllPrintable(s)
+        /\ \A i \in 1..Len(Printed(s)) : Printed(s)[i] \notin {6, 7}                    \* nothing unprintable is left
+        /\ \A n \in 0..3, c \in Syms : /\ Expand(<<<<c, n>>>> \o Runs(s)) = Rep(c, n) \o s
+                                        /\ PrintedR(<<<<c, n>>>> \o Runs(s)) = RepSeq(Esc(c), n) \o Printed(s)
+        \* a message that has the two shown forms as separate fields shows both; one that lost a field (or its end) does not
+        /\ \A t \in Strs : /\ ShowsBoth("streq", Runs(s), Runs(t), FALSE, FALSE, <<Printed(s), Printed(t)>>)
+                            /\ ~ShowsBoth("streq", Runs(s), Runs(t), FALSE, FALSE, <<Printed(s)>>)
+                            /\ Printed(s \o t) = Printed(s) \o Printed(t)
+Lemmas == BitLemmas /\ ShownLemmas /\ \A a \in Strs, b \in Strs :
              /\ HasDiff(a, b) <=> a # b
              /\ a # b => /\ FirstDiff(a, b) = FirstDiffRec(a, b)
                          /\ FirstDiff(a, b) = FirstDiff(b, a)
-                         /\ FirstDiff(a, b) <= Min(Len(a), Len(b))
+                         /\ FirstDiff(a, b) <= MinOf(Len(a), Len(b))
                          /\ \A j \in 0..(FirstDiff(a, b) - 1) : At(a, j) = At(b, j)   \* (empty range when 0)
                          /\ At(a, FirstDiff(a, b)) # At(b, FirstDiff(a, b))
              /\ HasDiff(LowerAll(a), LowerAll(b)) => FirstDiffNC(a, b) >= FirstDiff(a, b)      \* ignoring case can only postpone the difference
